@@ -21,7 +21,7 @@ CONFIG = dict(
     ],
     bounds="induction over the map view on two keys: any state x one operation; values are arbitrary u32 identities",
     manifest=dict(
-        text="Proof over the map contract. For every map state over two keys (built from arbitrary values), every operation on either key and a second, independent instance, Kani proves on the real put/get/get_mut/remove: put returns the previous value, get the latest, get_mut aliases the stored value, remove returns it and deletes the key, the other key and the other instance are unchanged, nothing is dropped behind the caller's back; and with a drop-counting value type, dropping the owner drops every stored value exactly once and nothing of another owner. A unit test walks one key through one sequence.",
+        text="Proof over the map contract. For every map state over two keys (built from arbitrary values), every operation on either key and a second, independent instance, Kani proves on the real put/get/get_mut/remove: put returns the previous value, get the latest, get_mut aliases the stored value, remove returns it and deletes the key, the other key and the other instance are unchanged, nothing is dropped behind the caller's back; and with a drop-counting value type, dropping the owner drops every stored value exactly once and nothing of another owner - for the CoroutineLocal itself and for the real Drop of a Coroutine in every lifecycle state (never started, suspended mid-body, finished); a bounded unit (3 operations after any initial state) additionally covers state an implementation may keep outside the map between operations. A unit test walks one key through one sequence.",
         note="Trusted: dashmap shim (sequential map contract), once_cell shim. The Deref from Coroutine to its local storage is a struct field access read off the source.",
         technique="contract-based deductive verification: Kani harness contracts against an abstract map view with drop-counting ghost state",
     ),
